@@ -7,6 +7,7 @@
     * `depthLe`    : every chain of LESS imports from these units has at most `d` imports
     * `allExist`   : every LESS import followed within `d` levels names an existing file
     * path lemmas about `splitSlash`, `normalize`, `extChars`, `isLess`, `resolve`
+    * `pasteU`     : the pasted file as a unit list (one file without LESS imports)
 -/
 import Lessm.Model.Import
 
@@ -807,5 +808,123 @@ theorem resolve_relative (dir sub : List String) (f g' : String)
   · exact hdir c hc
   · exact (hsub c hc).1
   · exact hg.1
+
+
+/-! ## 4 the pasted file as a file -/
+
+/-- the text a unit contributes when nothing is imported -/
+def Unit'.text : Unit' → String
+  | .other t => t
+  | .imp _ raw => raw
+
+/-- units → units, with `sub tgt us` for the units `us` of an imported file `tgt` -/
+def pasteUWith (files : Files) (sub : Path → List Unit' → List Unit') (cur : Path) :
+    List Unit' → List Unit'
+  | [] => []
+  | .other t :: r => .other t :: pasteUWith files sub cur r
+  | .imp ip raw :: r =>
+      (if isLess ip then
+        match findFile files (resolve cur ip) with
+        | none => []
+        | some us => sub (resolve cur ip) us
+       else [.imp ip raw]) ++ pasteUWith files sub cur r
+
+/-- the units of the one file obtained by pasting: every LESS import statement replaced by the pasted
+    units of the file it names; the other units, the non-LESS import statements among them, are kept -/
+def pasteU (files : Files) : Nat → Path → List Unit' → List Unit'
+  | 0 => pasteUWith files (fun _ _ => [])
+  | d + 1 => pasteUWith files (pasteU files d)
+
+/-- no LESS import statement is left -/
+def nonLessOnly : List Unit' → Bool
+  | [] => true
+  | .other _ :: r => nonLessOnly r
+  | .imp ip _ :: r => !isLess ip && nonLessOnly r
+
+theorem nonLessOnly_append (a b : List Unit') :
+    nonLessOnly (a ++ b) = (nonLessOnly a && nonLessOnly b) := by
+  induction a with
+  | nil => rfl
+  | cons u r ih => cases u <;> simp [nonLessOnly, ih, Bool.and_assoc]
+
+theorem pasteWith_eq_text (files : Files) {sub : Path → List Unit' → List String}
+    {subU : Path → List Unit' → List Unit'}
+    (hs : ∀ p us, sub p us = (subU p us).map Unit'.text) (cur : Path) (us : List Unit') :
+    pasteWith files sub cur us = (pasteUWith files subU cur us).map Unit'.text := by
+  induction us with
+  | nil => rfl
+  | cons u r ih =>
+    cases u with
+    | other t => simp [pasteWith, pasteUWith, ih, Unit'.text]
+    | imp ip raw =>
+      cases hl : isLess ip with
+      | false => simp [pasteWith, pasteUWith, ih, hl, Unit'.text]
+      | true =>
+        cases hf : findFile files (resolve cur ip) with
+        | none => simp [pasteWith, pasteUWith, ih, hl, hf]
+        | some uf => simp [pasteWith, pasteUWith, ih, hl, hf, hs]
+
+/-- the pasted text is the text of the pasted file -/
+theorem paste_eq_text : ∀ (files : Files) (d : Nat) (cur : Path) (us : List Unit'),
+    paste files d cur us = (pasteU files d cur us).map Unit'.text
+  | files, 0, cur, us =>
+    pasteWith_eq_text files (sub := fun _ _ => []) (subU := fun _ _ => []) (fun _ _ => rfl) cur us
+  | files, d + 1, cur, us => pasteWith_eq_text files (fun p us => paste_eq_text files d p us) cur us
+
+theorem nonLessOnly_pasteUWith (files : Files) {subU : Path → List Unit' → List Unit'}
+    (hs : ∀ p us, nonLessOnly (subU p us) = true) (cur : Path) (us : List Unit') :
+    nonLessOnly (pasteUWith files subU cur us) = true := by
+  induction us with
+  | nil => rfl
+  | cons u r ih =>
+    cases u with
+    | other t => simpa [pasteUWith, nonLessOnly] using ih
+    | imp ip raw =>
+      cases hl : isLess ip with
+      | false => simp [pasteUWith, nonLessOnly, ih, hl]
+      | true =>
+        cases hf : findFile files (resolve cur ip) with
+        | none => simp [pasteUWith, ih, hl, hf]
+        | some uf => simp [pasteUWith, nonLessOnly_append, ih, hl, hf, hs]
+
+theorem nonLessOnly_pasteU : ∀ (files : Files) (d : Nat) (cur : Path) (us : List Unit'),
+    nonLessOnly (pasteU files d cur us) = true
+  | files, 0, cur, us => nonLessOnly_pasteUWith files (subU := fun _ _ => []) (fun _ _ => rfl) cur us
+  | files, d + 1, cur, us =>
+    nonLessOnly_pasteUWith files (fun p us => nonLessOnly_pasteU files d p us) cur us
+
+/-- a file without LESS imports: its output is its text, in any file tree and at any place -/
+theorem load_nonLessOnly (files : Files) (b : Nat) (cur : Path) (us : List Unit')
+    (h : nonLessOnly us = true) : load files (b + 1) cur us = (some (us.map Unit'.text), []) := by
+  induction us with
+  | nil => simp [load_nil]
+  | cons u r ih =>
+    cases u with
+    | other t =>
+      rw [load_other, ih (by simpa [nonLessOnly] using h)]
+      simp [Unit'.text]
+    | imp ip raw =>
+      simp only [nonLessOnly, Bool.and_eq_true, Bool.not_eq_true'] at h
+      rw [load_imp_succ, ih h.2]
+      simp [impOut, impErrs, h.1, Unit'.text]
+
+theorem findFile_single (p : Path) (us : List Unit') : findFile [(p, us)] p = some us := by
+  simp [findFile]
+
+/-- the parser of level 9 finishes exactly the files without import statement -/
+theorem load_zero_none_iff (files : Files) (cur : Path) (us : List Unit') :
+    (load files 0 cur us).1 = none ↔ noImp us = false := by
+  constructor
+  · intro h
+    cases hn : noImp us with
+    | false => rfl
+    | true => rw [(load_noImp files 0 cur hn).1] at h; cases h
+  · intro h
+    induction us with
+    | nil => simp [noImp] at h
+    | cons u r ih =>
+      cases u with
+      | other t => rw [load_other, ih (by simpa [noImp] using h)]; rfl
+      | imp ip raw => rw [load_imp_zero]
 
 end Lessm.Imp
